@@ -296,7 +296,7 @@ def main(ctx, args):
     known_ids = {k["id"] for k in known}
     if not extract(ctx):
         ctx.finish()
-    proved = prove(ctx, MODULES, drivers=["drv_prog", "drv_c03"])
+    proved = prove(ctx, MODULES, drivers=["drv_prog", "drv_c03", "drv_mir"])
     if proved and ctx.tier == "thorough":
         proved = leancheck(ctx, MODULES)
     if not build_harness(ctx, bins=["runprog"]):
@@ -393,6 +393,19 @@ def main(ctx, args):
                 failures.append((c, f"vm-{cls}: " + vm[:200], vm, "-"))
     shipped_cov = shipped_stream(ctx, known) if not args.replay else {}
     stats["evaluations"] += shipped_cov.get("files", 0) + shipped_cov.get("corpus_cases", 0)
+    # SSA well-formedness of the MIR of everything the compiler accepted (`wfFn`, Model/MirWf.lean; theorem C03_mir_wf_no_stuck)
+    wf_stats, wf_bad = collections.Counter(), []
+    static = pc.mir_static(cases + (hcases if not args.replay else []))
+    for c in cases + (hcases if not args.replay else []):
+        st = static.get(c["id"], {"status": "missing"})
+        if st["status"] != "ok":
+            wf_stats["no_mir:" + st["status"].split(" ")[0]] += 1
+            continue
+        wf_stats["programs"] += 1
+        wf_stats["functions"] += st["fns"]
+        wf_stats["functions_wf"] += st["wf"]
+        if st["wffail"]:
+            wf_bad.append((c, st))
     kc = [dict(id=k["id"], src=k["src"], sx=None, inputs=k.get("inputs", []), times=k.get("times", 6)) for k in known if "src" in k]
     kres = pc.run_batch(kc, want_model=False, nshards=1) if kc else {}
     for k in known:
@@ -431,6 +444,12 @@ def main(ctx, args):
             except Exception as e:
                 rep["shrink_error"] = str(e)
         ctx.violation(f"type-checker correspondence / safety of accepted programs ({why[:220]}) — {len(failures)} cases; smallest:\n{rep['src']}", rep)
+    if wf_bad and not failures:
+        wf_bad.sort(key=lambda f: len(f[0]["src"]))
+        c, st = wf_bad[0]
+        ctx.violation(f"the MIR of an accepted program is not well formed (wfFn fails for {st['wffail']}: a register may be read before it is "
+                      f"defined, or a branch leaves the function; {len(wf_bad)} programs) — the per-program obligation of C03_mir_wf_no_stuck; smallest:\n{c['src']}",
+                      {"src": c["src"], "inputs": c.get("inputs", []), "times": c["times"], "why": "mir-not-wf", "static": st, "kind": c["kind"]}, found_input=False)
     if not proved and not failures:
         ctx.violation("proof obligation broken: " + "; ".join(ctx._broken), {"stage": "prove", "theorems": ctx._broken,
                       "lake": getattr(ctx, "_lake_errors", "")}, found_input=False)
@@ -451,5 +470,8 @@ def main(ctx, args):
         "outside_model_reasons": OUTSIDE_MODEL,
         "always_rejected_kinds": sorted(ALWAYS_REJECTED),
         "known_class_instances": {k: len(v) for k, v in sorted(classed.items())},
+        "mir_ssa_wellformedness": {"rule": "wfFn (Model/MirWf.lean; theorem C03_mir_wf_no_stuck) evaluated by drv_mir on every function of the MIR of every "
+                                           "program the real compiler accepted (well-typed, accepted mutants, heap/closure programs)",
+                                   **dict(wf_stats), "programs_with_a_function_not_wf": len(wf_bad)},
     })
     ctx.finish("proof")
